@@ -85,6 +85,40 @@ def failing_factory_cases():
                         row = f"failing-factory:{exc_name}:{fac_kind}-factory:{fn_kind}-function:{'optional' if opt else 'required'}"
                         rows.append({"id": "diff-" + row, "kind": "differential", "row": row,
                                      "obs": "same" if outcomes[0] == outcomes[1] else f"decorated {outcomes[0]} / explicit {outcomes[1]}"})
+        # @inject on top of another decorator that wraps a plain function in a coroutine function (functools.wraps): what is handed to
+        # @inject is a coroutine function, so its markers are resolved with get_resource (an asynchronous factory is fine)
+        import functools
+
+        def in_a_coroutine(fn):
+            @functools.wraps(fn)
+            async def wrapper(*args, **kwargs):
+                await anyio.sleep(0)
+                return fn(*args, **kwargs)
+            return wrapper
+
+        for opt in (False, True):
+            def inner(*, dep=resource()):
+                return "body ran with " + type(dep).__name__
+            inner.__annotations__ = {"dep": (Dep | None) if opt else Dep}
+            g = inject(in_a_coroutine(inner))
+
+            async def working_factory():
+                await anyio.sleep(0)
+                return Dep()
+            outcomes = []
+            for decorated in (True, False):
+                async with Context() as ctx:
+                    ctx.add_resource_factory(working_factory, types=[Dep])
+                    try:
+                        if decorated:
+                            outcomes.append(await g())
+                        else:
+                            outcomes.append("body ran with " + type(await get_resource(Dep, optional=opt)).__name__)
+                    except Exception as e:  # noqa: BLE001
+                        outcomes.append("raised " + type(e).__name__)
+            row = f"coroutine-wrapper-around-a-plain-function:{'optional' if opt else 'required'}"
+            rows.append({"id": "diff-" + row, "kind": "differential", "row": row,
+                         "obs": "same" if outcomes[0] == outcomes[1] else f"decorated {outcomes[0]} / explicit {outcomes[1]}"})
     vclock.run(main, backend="asyncio", seed=0)
     return rows
 
